@@ -21,7 +21,7 @@ LEVEL_TEXT = ("Real end-to-end runs over generated release/death histories (reco
 LEVEL_NOTE = "f4 encodings compared at 2e-6 relative, f8/i4 exactly. Trusts netCDF4 for reading back and the harness's snapshot hook (hook call count reported)."
 RULE = ("case = (dt, steps, period, numrec, layout, reference, release steps and sizes, IBM kill schedule, particle variables or not, lon/lat or not, encoding, moving water). "
         "Non-trivial: at least one death or a late release so that record sizes change; distinct by the whole parameter tuple.")
-MANDATORY = ["record_with_living_inactive_particles_dense", "record_with_living_inactive_particles_sparse", "stop_off_grid_steps_multiple_of_period_particle_variables", "packed_output_variable", "forcing_derived_values_checked", "sparse", "dense", "empty_record", "highest_pids_dead_at_file_end", "all_dead_at_end", "late_first_release", "multifile", "explicit_reference",
+MANDATORY = ["reference_time_decades_before_the_run", "record_with_living_inactive_particles_dense", "record_with_living_inactive_particles_sparse", "stop_off_grid_steps_multiple_of_period_particle_variables", "packed_output_variable", "forcing_derived_values_checked", "sparse", "dense", "empty_record", "highest_pids_dead_at_file_end", "all_dead_at_end", "late_first_release", "multifile", "explicit_reference",
              "particle_variables", "lonlat_output", "f4_encoding", "records_compared", "dense_lonlat_with_deaths", "warm_started_run_checked"]
 ASSUMPTIONS = ["durations are multiples of the time step; residues of steps modulo the period are C07's subject but occur here too"]
 TIMEOUT = {"quick": 900, "thorough": 3000}
@@ -50,7 +50,7 @@ def gen_case(seed: int, idx: int) -> dict[str, Any]:
     lonlat = bool(rng.random() < 0.35)
     return dict(idx=idx, salt=idx, dt=int(rng.choice([60, 600])), nsteps=nsteps, period=period,
                 numrec=int(rng.choice([0, 0, 1, 2, 3])), layout=layout, reversed=bool(rng.random() < 0.25),
-                reference=None if rng.random() < 0.5 else str(C.tadd_iso(C.T0, -int(rng.integers(0, 10**6)))),
+                reference=("1970-01-01T00:00:00" if idx % 10 == 7 else None) if rng.random() < 0.5 else str(C.tadd_iso(C.T0, -int(rng.integers(0, 10**6)))),
                 releases=releases, kills=kills, pvars=bool(rng.random() < 0.7), lonlat=lonlat,
                 enc="f4" if rng.random() < 0.4 else "f8", speed=float(rng.choice([0.0, 0.05, 0.11])),
                 continuous=int(rng.choice([0, 0, 0, 1, 2])), warm=bool(idx % 4 == 1))
@@ -92,6 +92,7 @@ def run_case(case: dict[str, Any], wd: Path) -> dict[str, Any]:
     sit["record_with_living_inactive_particles_" + case["layout"]] = int(inact > 0)
     sit["multifile"] = int(case["numrec"] > 0)
     sit["explicit_reference"] = int(case["reference"] is not None)
+    sit["reference_time_decades_before_the_run"] = int(str(case["reference"]).startswith("1970"))
     sit["particle_variables"] = int(case["pvars"])
     sit["lonlat_output"] = int(case["lonlat"])
     sit["f4_encoding"] = int(case["enc"] == "f4")
